@@ -42,9 +42,9 @@ func runC09(c *Ctx) {
 	nrT := "*rules.NetworkRule"
 	// roles
 	var rme, me *ssa.Function
-	eachInstr(dr, func(_ *ssa.BasicBlock, in ssa.Instruction) {
+	eachInstrG(c.P, dr, func(_ *ssa.BasicBlock, in ssa.Instruction) {
 		if ci, ok := in.(ssa.CallInstruction); ok {
-			if cal := ci.Common().StaticCallee(); cal != nil && c.P.IsLibFunc(cal) && cal != dra {
+			if cal := ci.Common().StaticCallee(); cal != nil && c.P.IsLibFunc(cal) && !c.P.IsNewHelper(cal) && cal != dra {
 				sig := cal.Signature
 				if sig.Params().Len() == 2 && typeStr(sig.Params().At(0).Type()) == "[]"+nrT && typeStr(sig.Params().At(1).Type()) == nrT {
 					rme = cal
@@ -57,9 +57,9 @@ func runC09(c *Ctx) {
 		return
 	}
 	for _, fn := range withAnon(rme) {
-		eachInstr(fn, func(_ *ssa.BasicBlock, in ssa.Instruction) {
+		eachInstrG(c.P, fn, func(_ *ssa.BasicBlock, in ssa.Instruction) {
 			if ci, ok := in.(ssa.CallInstruction); ok {
-				if cal := ci.Common().StaticCallee(); cal != nil && c.P.IsLibFunc(cal) {
+				if cal := ci.Common().StaticCallee(); cal != nil && c.P.IsLibFunc(cal) && !c.P.IsNewHelper(cal) {
 					sig := cal.Signature
 					if sig.Recv() == nil && sig.Params().Len() == 3 && typeStr(sig.Results().At(0).Type()) == "bool" {
 						me = cal
